@@ -280,7 +280,7 @@ def rel_event(cx, a, b):
         which.append(1 if res is x else (2 if res is y else 0))
     return {"op": "rel", "a": a, "b": b, "lt": c[0].value, "le": c[1].value, "gt": c[2].value, "ge": c[3].value,
             "eq": c[4].value, "ne": c[5].value, "cmp": sign(cmpv) if isinstance(cmpv, int) else 99,
-            "mn": which[0], "mx": which[1], "hq": hash(x) == hash(y), "ord": True}
+            "mn": which[0], "mx": which[1], "hq": hash(x) == hash(y), "px": [], "ord": True}
 
 
 def tri_event(cx, a, b, c):
@@ -419,7 +419,12 @@ def run(run):
     cx = Ctx(run)
     res_u, res_s = M.tlc_parallel([
         ("ValLaws", "ValLaws_c07_quick" if quick else "ValLaws_c07_thorough", dict(coverage=False, timeout=3000)),
-        ("ValSort", "ValSort_quick" if quick else "ValSort_thorough", dict(coverage=True, timeout=3000))])
+        ("ValSort", "ValSort_quick" if quick else "ValSort_thorough", dict(coverage=False, timeout=3000))])
+    # how often each action was taken, as the actions themselves report it (ValSort Act)
+    acts = {}
+    for a in res_s.records("ACT"):
+        acts[a] = acts.get(a, 0) + 1
+    res_s.coverage = acts
     u = M.load_universe(run, None, "ValLaws: order laws over the universe", res_u)
     run.add_tlc(res_s, "ValSort: the insertion sort of `sorted`")
     n = u["n"]
